@@ -1,7 +1,6 @@
 package stdlib
 
 import (
-	"math"
 	"strconv"
 
 	. "rare/pkg/expressions" //lint:ignore ST1001 Legacy
@@ -122,8 +121,14 @@ func kfExpBucket(args []KeyBuilderStage) (KeyBuilderStage, error) {
 		if err != nil {
 			return ErrorNum
 		}
-		logVal := int(math.Log10(float64(val)))
+		if val < 1 {
+			return "0"
+		}
+		bucket := 1
+		for bucket <= val/10 {
+			bucket *= 10
+		}
 
-		return strconv.Itoa(int(math.Pow10(logVal)))
+		return strconv.Itoa(bucket)
 	}), nil
 }
